@@ -83,7 +83,7 @@ def regime(rng, cfg, first=False):
     it = 0
     if thumb and rng.random() < 0.3:
         it = rng.randrange(1, 256)
-    cpsr = G.random_cpsr(rng, cfg, thumb=thumb, it=it)
+    cpsr = G.random_cpsr(rng, cfg, thumb=thumb, it=it, e=None)
     sct = G.sctlr_value(m=int(rng.random() < 0.5), a=int(rng.random() < 0.3), v=int(rng.random() < 0.3), u=rng.getrandbits(1),
                           ve=int(rng.random() < 0.1), te=rng.getrandbits(1), br=rng.getrandbits(1), nmfi=int(rng.random() < 0.2),
                           tre=int(rng.random() < (0.85 if cfg['memory_system_architecture'] == 'VMSA' else 0.3)), afe=int(rng.random() < 0.2))
